@@ -21,7 +21,7 @@ from koala.lattice import Lattice, LatticeException
 
 DRIVERS = ("c16",)
 MODEL_TARGETS = ["Model/Clip.vo", "Model/Plot.vo"]
-TARGETS = ["Proofs/ClipFacts.vo", "Proofs/PlotFacts.vo"]
+TARGETS = ["Proofs/ClipFacts.vo", "Proofs/PlotFacts.vo", "Proofs/VisFacts.vo"]
 LEVEL = "proof"
 TRUST = [
     "hand-written Gallina model coq/Model/Plot.v of plotting.py (_process_plot_args, _broadcast_args, plot_vertices/edges/plaquettes replication rules, "
@@ -408,6 +408,10 @@ def check_edges(ctx, lc, pa, dirs, case):
         if sel:
             ev = pos[edges[sel]].astype(float)
             ev[:, 0, :] -= crossing[sel]
+            # genericity clause: an end point on a cell line (this includes an axis-aligned edge lying on a cell line)
+            for e, mm in zip(sel, np.min(np.abs(ev - np.round(ev)).reshape(len(sel), -1), axis=1)):
+                if mm < TOL:
+                    skip.add(e)
             for d in gen_nine():
                 _, mar = vis_margin(ev + np.array(d, dtype=float))
                 for e, mm in zip(sel, mar):
@@ -479,8 +483,9 @@ def check_edges(ctx, lc, pa, dirs, case):
 
         def not_skipped(s):
             return not any(match_translate(s, *fl[e]) is not None for e in skip)
-        I = [(s, cols[k], k) for k, s in enumerate(segs) if not skip or not_skipped(s)]
-        M = [(s, rgba(pa["scheme"][d[1]]), d) for s, d in zip(mseg, md) if not skip or not_skipped(s)]
+        kskip = set() if lc.exact else skip
+        I = [(s, cols[k], k) for k, s in enumerate(segs) if not kskip or not_skipped(s)]
+        M = [(s, rgba(pa["scheme"][d[1]]), d) for s, d in zip(mseg, md) if not kskip or not_skipped(s)]
         if len(I) != len(M):
             ctx.k_mismatch(f"{what}: model draws {len(M)} pieces, implementation {len(I)}", case)
         else:
@@ -616,7 +621,7 @@ def check_plaquettes(ctx, lc, pa, case):
             ctx.k_mismatch(f"{what}: model {nm} plaquettes, implementation {len(got)}", case)
             continue
         for k, (i, (polys, fcs)) in enumerate(zip(idx, got)):
-            if i in lc.skipped_plaqs:
+            if i in lc.skipped_plaqs and not lc.exact:
                 continue
             c = Cursor(o[f"p{k}"])
             col = c.z()
@@ -679,6 +684,9 @@ def build_latcase(case):
     lc.ser, lc.S = ser_lattice_arrays(pos, edges, crossing)
     lc.skipped_edges, lc.skipped_plaqs = set(), set()
     lc.img_hist, lc.poly_hist = {}, {}
+    # exact stream: coordinates on the 1/8 grid and edge vectors in {0, +-1/8, +-1/4, +-1/2}: every float operation of the
+    # visibility / replication rules is exact, so model and implementation must agree even ON the cell lines (K only)
+    lc.exact = bool(case.get("exact", False))
     return lc, None
 
 
@@ -690,6 +698,8 @@ def evaluate_lattice(ctx, case):
         return
     rng = np.random.default_rng([case["seed"], 16])
     fam = case["lattice"]["family"] + ("/" + case["lattice"]["base"]["family"] if "base" in case["lattice"] else "")
+    if lc.exact:
+        fam = "exact-grid(K on cell lines)"
     periodic = bool(np.any(lc.crossing != 0))
     pav = case.get("args_v") or gen_plot_args(rng, len(lc.pos))
     pae = case.get("args_e") or gen_plot_args(rng, len(lc.edges))
@@ -909,6 +919,39 @@ def check_lint_case(ctx, case):
 
 
 # ------------------------------------------------------------------ case lists
+def exact_grid_cases(rng, count):
+    """lattices on the 1/8 grid (vertices ON cell lines included) with edge vectors in {0,+-1/8,+-1/4,+-1/2}^2"""
+    out = []
+    for nx, ny, sh in [(2, 2, 0), (4, 2, 0), (4, 4, 0), (2, 4, 0.125), (4, 4, 0.125), (2, 2, 0.25)]:
+        pos, edges, cr = [], [], []
+        for i in range(nx):
+            for j in range(ny):
+                pos.append([i / nx + sh, j / ny + (sh if nx != ny else 0)])
+        for i in range(nx):
+            for j in range(ny):
+                a = i * ny + j
+                edges.append([a, ((i + 1) % nx) * ny + j]); cr.append([1 if i + 1 == nx else 0, 0])
+                edges.append([a, i * ny + (j + 1) % ny]); cr.append([0, 1 if j + 1 == ny else 0])
+        out.append({"family": "raw", "positions": pos, "edges": edges, "crossing": cr})
+    allowed = {0.0, 0.125, 0.25, 0.5}
+    while len(out) < count:
+        V = int(rng.integers(3, 9))
+        pts = rng.permutation(64)[:V]
+        pos = [[int(p) // 8 / 8.0, int(p) % 8 / 8.0] for p in pts]
+        edges, cr = [], []
+        for _ in range(int(rng.integers(2, 2 * V + 1)) * 4):
+            j, k = int(rng.integers(0, V)), int(rng.integers(0, V))
+            if j == k:
+                continue
+            c = [int(rng.integers(-1, 2)), int(rng.integers(-1, 2))]
+            v = [pos[k][0] - pos[j][0] + c[0], pos[k][1] - pos[j][1] + c[1]]
+            if abs(v[0]) in allowed and abs(v[1]) in allowed and (v[0] or v[1]):
+                edges.append([j, k]); cr.append(c)
+        if edges:
+            out.append({"family": "raw", "positions": pos, "edges": edges, "crossing": cr})
+    return out
+
+
 def lattice_cases(tier, seed):
     rng = np.random.default_rng([seed, 16])
     ex = gen.example_cases(tier)
@@ -925,6 +968,8 @@ def lattice_cases(tier, seed):
     for k, c in enumerate(lats):
         for r in range(reps if c["family"] in ("example", "voronoi") else 1):
             out.append({"kind": "lattice", "lattice": c, "seed": int(rng.integers(0, 2**31))})
+    for c in exact_grid_cases(rng, 40 if tier == "quick" else 300):
+        out.append({"kind": "lattice", "lattice": c, "exact": True, "seed": int(rng.integers(0, 2**31))})
     return out
 
 
